@@ -42,7 +42,7 @@ def scratch(prefix="lspverif-"):
 
 
 def tlc_cmd(module, cfg, workers=1, extra=(), metadir=None, heap="3g", deque=False):
-    jopts = ["-XX:+UseParallelGC", "-Xss64m", "-Xmx" + heap, "-Dfile.encoding=UTF-8", "-Dstdout.encoding=UTF-8"]
+    jopts = ["-XX:+UseParallelGC", "-XX:ParallelGCThreads=2", "-XX:CICompilerCount=2", "-Xss64m", "-Xmx" + heap, "-Dfile.encoding=UTF-8", "-Dstdout.encoding=UTF-8"]
     if deque:
         jopts.append("-Dtlc2.tool.queue.IStateQueue=StateDeque")
     return (["java"] + jopts + ["-cp", TLC_CP, "tlc2.TLC", "-workers", str(workers), "-noGenerateSpecTE",
